@@ -68,6 +68,11 @@ TEXT = {
         note="One sync per state (histories are C08/C09's subject). Children carry one template version field and one non-revisioned field.",
         technique="bounded-exhaustive enumeration of protocol states, one real transition from each (explicit-state, superset of reachable states)",
     ),
+    "C09": dict(
+        level="Exhaustive single-deviation fault/crash enumeration over complete rollouts on the real code: every request of every sync is failed in four ways, and every crash cut is taken (snapshot/restore of store and caches makes each deviation start from the exact fault-free pre-state); oracles: order clause on every sync's request log (all ControllerRevision writes before any child write, none after a failed one), persisted-intent invariants at the cut and after every recovery sync, and equality of the final cluster with the uninterrupted run.",
+        note="Single deviations exhaustively; multi-fault sequences are not claimed. The differential oracle compares content (names, specs, labels, owners, revision claims, parent status) modulo resourceVersions and UID incarnations.",
+        technique="exhaustive fault and crash-point enumeration (deviation bound 1) with differential oracle against the uninterrupted execution",
+    ),
 }
 
 PENDING_REASON = "check not built yet in this session (planned in DESIGN.md §4); no claim is made until its check runs clean on the unchanged tree"
